@@ -11,8 +11,11 @@
 // with IDENTICAL action texts in one grammar (the second one differs by a lookahead, or not at
 // all), which is the situation in which the compiler shares extracted mid-rule nonterminals.
 //
-// Terminals carry {int} values 100+start offset, blanks between tokens vary, so values, offsets,
-// end offsets and indices are pairwise distinguishable. The reference model computes, for every
+// Terminals alternate between {int} (value 100+start offset) and {string} (value "s<start>"), the
+// helper nonterminal P is {float64}, and every reference is recorded as %T:%v, so a reference
+// asserted to the type of another symbol (e.g. of the other alternative of a choice sharing an
+// alias) shows up as a zero value of the wrong type. Blanks between tokens vary, so values,
+// offsets, end offsets and indices are pairwise distinguishable. The reference model computes, for every
 // expansion of the rule as written (which optional parts are present, which alternative, how many
 // list elements), what each recorded reference must print: the value / start / end of the symbol
 // it names, or nil / -1 when that symbol is not part of the expansion.
@@ -185,7 +188,11 @@ func (g *gspec) finish(name string) bool {
 	var sb strings.Builder
 	fmt.Fprintf(&sb, "language %s(go);\n\npackage = \"scratch/%s\"\neventBased = true\n\n:: lexer\n\nWhiteSpace: /[ ]+/ (space)\n", name, name)
 	for _, t := range tl {
-		fmt.Fprintf(&sb, "%s {int}: /%s/ { $$ = 100 + l.tokenOffset }\n", t, t[1:])
+		if termType(t) == "string" {
+			fmt.Fprintf(&sb, "%s {string}: /%s/ { $$ = \"fmt\".Sprintf(\"s%%d\", l.tokenOffset) }\n", t, t[1:])
+		} else {
+			fmt.Fprintf(&sb, "%s {int}: /%s/ { $$ = 100 + l.tokenOffset }\n", t, t[1:])
+		}
 	}
 	sb.WriteString("\n:: parser\n\n%input S;\n\nS {interface{}}:\n")
 	for i, r := range g.rules {
@@ -197,14 +204,14 @@ func (g *gspec) finish(name string) bool {
 		if g.prefix[i] != "" {
 			pre = "t" + g.prefix[i] + " "
 		}
-		fmt.Fprintf(&sb, "%s%s%s { \"scratch/rt\".Record(\"top %%v %%v %%v\", $%s, ${%s.offset}, ${%s.endoffset}); $$ = $%s }\n", lead, pre, r.name, r.name, r.name, r.name, r.name)
+		fmt.Fprintf(&sb, "%s%s%s { \"scratch/rt\".Record(\"top %%T:%%v %%T:%%v %%T:%%v\", $%s, $%s, ${%s.offset}, ${%s.offset}, ${%s.endoffset}, ${%s.endoffset}); $$ = $%s }\n", lead, pre, r.name, r.name, r.name, r.name, r.name, r.name, r.name, r.name)
 	}
 	sb.WriteString(";\n\n")
 	for _, r := range g.rules {
 		fmt.Fprintf(&sb, "%s {int}:\n    %s\n;\n\n", r.name, seqText(r.body))
 	}
 	if terms["tp"] {
-		sb.WriteString("P {int}:\n    tp tq { $$ = 200 + $tp }\n;\n\n")
+		sb.WriteString("P {float64}:\n    tp tq { $$ = float64(200+$tp) + 0.5 }\n;\n\n")
 	}
 	if look {
 		fmt.Fprintf(&sb, "Z:\n    %s\n;\n", strings.Join(tl, " | "))
@@ -248,10 +255,10 @@ func (g *gspec) finish(name string) bool {
 				top := wrec{Tag: "top", where: "parent", Vals: []string{wild, wild, wild}, pres: []string{"present", "present", "present"},
 					refs: []ref{{Text: "$" + r.name, Class: "lhs.value"}, {Text: "${" + r.name + ".offset}", Class: "nonterm.offset"}, {Text: "${" + r.name + ".endoffset}", Class: "nonterm.endoffset"}}}
 				if endRan {
-					top.Vals[0] = fmt.Sprint(lhs)
+					top.Vals[0] = fmt.Sprintf("int:%d", lhs)
 				}
 				if rs >= 0 {
-					top.Vals[1], top.Vals[2] = fmt.Sprint(rs), fmt.Sprint(re)
+					top.Vals[1], top.Vals[2] = fmt.Sprintf("int:%d", rs), fmt.Sprintf("int:%d", re)
 					// the range of a rule whose last stack symbol is empty (an empty list) ends where
 					// that empty symbol was placed, i.e. at the next token; C16 does not cover this
 					for i := len(placed) - 1; i >= 0; i-- {
@@ -463,7 +470,7 @@ func enumerate(quick bool) []*gspec {
 			}
 			single(t, v)
 		})
-		for _, t := range [][]int{idx("s", "dup"), idx("s?", "dup"), idx("s?", "(s|s s)"), idx("s", "set(s|s)[x]"), idx("s?", "(s separator s)+"), idx("s*[x]", "s"), idx("s", "(s (s|s)?)?"), idx("(s?|P)[x]", "s")} {
+		for _, t := range [][]int{idx("s", "dup"), idx("s?", "dup"), idx("s?", "(s|s s)"), idx("s", "set(s|s)[x]"), idx("s?", "(s separator s)+"), idx("s*[x]", "s"), idx("s", "(s (s|s)?)?"), idx("(s?|P)[x]", "s"), idx("s", "(s separator s)*[x]"), idx("(s separator s)*[x]", "s")} {
 			single(t, vGreedy)
 		}
 		// 3 items with a lookahead in the middle
@@ -473,6 +480,8 @@ func enumerate(quick bool) []*gspec {
 			}
 		}
 		single(idx("s", "(?=Z)", "s"), vFL)
+		// a separated * list in the middle (neither first() nor last() of any action)
+		single(idx("s", "(s separator s)*[x]", "s"), vEnd)
 		single(idx("s", "s?", "s"), vGreedy|vAll)
 		single(idx("s?", "s", "dup"), vGreedy)
 		return out
@@ -686,9 +695,9 @@ func run(c *core.Ctx) {
 		"or a pair of rules with identical action texts (second rule identical or with a lookahead next to a mid-rule action); each action records every reference visible to it; " +
 		"every expansion of the rule as written with <= 5 tokens (lists 0..2 elements) x 2 blank patterns is parsed by the generated parser; " +
 		"evaluation = one recorded reference value compared with the model; a grammar is non-trivial when it was built and run, has a mid-rule action and an exercised expansion in which a symbol of the rule is absent")
-	c.Assume("scratch/rt.Record and the lexer action `$$ = 100 + l.tokenOffset` make token values observable; S: R {record $R} observes $$")
+	c.Assume("scratch/rt.Record with %T:%v and lexer actions computing {int}/{string} values from l.tokenOffset make token values and their asserted types observable; S: R {record $R} observes $$")
 	c.Assume("conventions without prose documentation are taken from the implementation: 0-based $N, name#k for repeated names, names scoped per parenthesised alternative; " +
-		"values of lists/sets, positions of empty lists and first()/last() landing on an extracted action or lookahead are not specified and are left out")
+		"values of lists/sets and first()/last() landing on an extracted action or lookahead are not specified and are left out; an empty * list is present and sits at the next token (template: offset = endoffset = p.next.offset)")
 	specs := enumerate(c.Quick())
 	c.Set("grammars_enumerated", len(specs))
 	if os.Getenv("C16_LIST") != "" { // debugging aid: print the family and stop
